@@ -367,6 +367,14 @@ func runHist(ci interface{}, s *vkit.Stats) error {
 				nontrivial = true
 			}
 			fp = append(fp, "all")
+		case "gc":
+			// collections, finalizers and heap reuse between mocking and calling: a mock lives until its builder is reset
+			vkit.GC()
+			vkit.ChurnSmall(15000)
+			if len(st) > 0 {
+				s.Class("gc-with-live-method-mocks")
+			}
+			fp = append(fp, "gc")
 		case "reset":
 			b.Reset()
 			b = mocker.Create()
@@ -397,7 +405,7 @@ func runHist(ci interface{}, s *vkit.Stats) error {
 	return nil
 }
 
-var opGen = vkit.OpGen([]string{"apply", "ret", "call", "callall", "reset"}, []int{4, 3, 8, 2, 1}, 5)
+var opGen = vkit.OpGen([]string{"apply", "ret", "call", "callall", "reset", "gc"}, []int{4, 3, 8, 2, 1, 2}, 5)
 
 func quiet() {
 	if f, err := os.OpenFile(os.DevNull, os.O_WRONLY, 0); err == nil && os.Getenv("VERIF_VERBOSE") == "" {
